@@ -6,6 +6,7 @@ import (
 	"encoding/xml"
 	"errors"
 	"fmt"
+	"math"
 	"strconv"
 	"testing"
 
@@ -263,6 +264,13 @@ func pokeWithCustomHooks(d date.Date) {
 	_ = u.UnmarshalText([]byte(text))
 	_ = json.Unmarshal([]byte(`{"d":"`+text+`"}`), &jholder{})
 	_ = u.Scan(text)
+	// second stage: a Formatter that fails (after writing something), used once, before the defaults come back
+	date.Formatter = func(buf []byte, d date.Date, f date.Format) ([]byte, error) {
+		return append(buf, "part"...), errors.New("formatter refused")
+	}
+	_ = d.String()
+	_ = fmt.Sprintf("%s %b", d, d)
+	_, _ = d.MarshalText()
 }
 
 func setLimit(n int) func() {
@@ -297,9 +305,9 @@ func TestCheck(t *testing.T) {
 			defer func() { date.Formatter = old }()
 			date.Formatter = func(buf []byte, d date.Date, f date.Format) ([]byte, error) {
 				if d.Day()%2 == 0 { // a formatter that fails half-way has already written something
-				return append(buf, "partial "...), errors.New("formatter refused")
-			}
-			return nil, errors.New("formatter refused")
+					return append(buf, "partial "...), errors.New("formatter refused")
+				}
+				return nil, errors.New("formatter refused")
 			}
 			r.Serial(func(w *vkit.W) { judgeFailingFormatter(c, w); w.Eval(true) })
 			return
@@ -386,9 +394,32 @@ func TestCheck(t *testing.T) {
 		})
 	})
 
+	// Phase A4: a date and, right after it, the dates whose year differs by a multiple of 2^8, 2^16, 2^24 (same month and day, and
+	// the day after): whatever is remembered about the previous date must not be taken for this one.
+	r.Phase("A4: each of 3000 dates followed immediately by the dates whose year is larger by 256, 65536, 2 x 65536, 2^24, 10000, 100000 (limit disabled)", func() {
+		defer setLimit(0)()
+		r.Parallel(3000, 32, func(w *vkit.W, lo, hi int64) {
+			for i := lo; i < hi; i++ {
+				y, m, d := ref.CivilFromDays(ref.Ord0 + i*1217)
+				for _, sh := range []int64{256, 65536, 131072, 1 << 24, 10000, 100000} {
+					for _, basic := range []bool{false, true} {
+						judge(Case{Y: y, M: m, D: d, Basic: basic, Limit: 0}, w)
+						dd := d
+						if dd > ref.DaysIn(y+sh, m) {
+							dd = ref.DaysIn(y+sh, m)
+						}
+						c := Case{Y: y + sh, M: m, D: dd, Basic: basic, Limit: 0, Full: i%8 == 0}
+						judge(c, w)
+						w.EvalRandom(vkit.HashU(uint64(y+sh), uint64(m*32+dd), 7, b2u(basic)), true)
+					}
+				}
+			}
+		})
+	})
+
 	// long years under raised/disabled limits (globals are set sequentially per limit; workers only read)
 	nLong := int64(r.Pick(40000, 2000000))
-	for _, lim := range []int{0, 11, 12, 13, 14, 15, 16, 10} {
+	for _, lim := range []int{0, 11, 12, 13, 14, 15, 16, math.MaxInt, math.MaxInt - 63, math.MaxInt32, 10} { // incl. "practically unlimited" settings
 		lim := lim
 		r.Phase(fmt.Sprintf("B: %d seeded dates with 5-9 digit years, MaxInputLength=%d", nLong, lim), func() {
 			defer setLimit(lim)()
